@@ -13,7 +13,7 @@
 (* Used as an acceptor on recordings (C09) and, with one rule negated at a *)
 (* time, as a generator of nearly well-formed inputs (C17).                *)
 (***************************************************************************)
-EXTENDS Integers, Sequences, TLC
+EXTENDS Integers, Sequences, TLC, SequencesExt
 
 LastC(s) == s[Len(s)]
 PopC(s) == SubSeq(s, 1, Len(s) - 1)
@@ -28,32 +28,34 @@ Done(stk) == IF stk = <<>> THEN <<>>
                     [] OTHER -> IF f[2] = 1 THEN Done(PopC(stk)) ELSE Append(PopC(stk), <<f[1], f[2] - 1>>)
 \* is the next item a map key?
 KeyPos(stk) == stk # <<>> /\ ((LastC(stk)[1] = "m*" /\ LastC(stk)[2] % 2 = 0) \/ (LastC(stk)[1] = "m" /\ LastC(stk)[2] % 2 = 0))
-RECURSIVE WF(_, _, _, _)
-\* s: heads, i: position, stk: open frames, top: has the single top-level item completed
-WF(s, i, stk, top) ==
-  IF i > Len(s) THEN top /\ stk = <<>>
-  ELSE IF top THEN FALSE                                            \* bytes after the event
-  ELSE LET k == s[i][1]  n == s[i][2]
-           fin(st) == IF st = <<>> THEN WF(s, i + 1, <<>>, TRUE) ELSE WF(s, i + 1, st, FALSE)
+\* One step of the automaton. acc = [stk: open frames, top: the single top-level item has completed, ok]
+\* (a fold, not a recursion: recordings of mutated code can carry thousands of heads)
+StepWF(acc, h) ==
+  IF ~acc.ok THEN acc
+  ELSE IF acc.top THEN [acc EXCEPT !.ok = FALSE]                                \* bytes after the event
+  ELSE LET k == h[1]  n == h[2]  stk == acc.stk
+           fin(st) == [stk |-> st, top |-> (st = <<>>), ok |-> TRUE]
+           push(f) == [stk |-> Append(stk, f), top |-> FALSE, ok |-> TRUE]
+           bad == [acc EXCEPT !.ok = FALSE]
            inStr == stk # <<>> /\ LastC(stk)[1] \in {"t*", "b*"}
-       IN CASE k = "X" -> FALSE
-            [] k = "BRK" -> /\ stk # <<>> /\ LastC(stk)[1] \in {"m*", "a*", "t*", "b*"}      \* no dangling break
-                            /\ (LastC(stk)[1] = "m*" => LastC(stk)[2] % 2 = 0)                \* even number of items in a map
-                            /\ fin(Done(PopC(stk)))
-            [] inStr -> (k = (IF LastC(stk)[1] = "t*" THEN "T" ELSE "B")) /\ WF(s, i + 1, stk, FALSE)   \* chunks: definite, same major type
-            [] KeyPos(stk) /\ k \notin {"T", "T*"} -> FALSE                                 \* keys are text strings
-            [] stk = <<>> /\ k # "M*" -> FALSE                                              \* an event is an indefinite-length map
+       IN CASE k = "X" -> bad
+            [] k = "BRK" -> IF /\ stk # <<>> /\ LastC(stk)[1] \in {"m*", "a*", "t*", "b*"}       \* no dangling break
+                               /\ (LastC(stk)[1] = "m*" => LastC(stk)[2] % 2 = 0)                  \* even number of items in a map
+                            THEN fin(Done(PopC(stk))) ELSE bad
+            [] inStr -> IF k = (IF LastC(stk)[1] = "t*" THEN "T" ELSE "B") THEN acc ELSE bad     \* chunks: definite, same major type
+            [] KeyPos(stk) /\ k \notin {"T", "T*"} -> bad                                       \* keys are text strings
+            [] stk = <<>> /\ k # "M*" -> bad                                                    \* an event is an indefinite-length map
             [] k \in {"U", "N", "B", "T", "F", "S"} -> fin(Done(stk))
-            [] k = "A" -> IF n = 0 THEN fin(Done(stk)) ELSE WF(s, i + 1, Append(stk, <<"a", n>>), FALSE)
+            [] k = "A" -> IF n = 0 THEN fin(Done(stk)) ELSE push(<<"a", n>>)
             \* a map that is the content of a tag (tag 261: {address bytes: prefix length}) is not an object of the event:
             \* its keys need not be text
             [] k = "M" -> IF n = 0 THEN fin(Done(stk))
-                          ELSE WF(s, i + 1, Append(stk, <<(IF stk # <<>> /\ LastC(stk)[1] = "g" THEN "mg" ELSE "m"), 2 * n>>), FALSE)
-            [] k = "A*" -> WF(s, i + 1, Append(stk, <<"a*", 0>>), FALSE)
-            [] k = "M*" -> WF(s, i + 1, Append(stk, <<"m*", 0>>), FALSE)
-            [] k = "T*" -> WF(s, i + 1, Append(stk, <<"t*", 0>>), FALSE)
-            [] k = "B*" -> WF(s, i + 1, Append(stk, <<"b*", 0>>), FALSE)
-            [] k = "G" -> WF(s, i + 1, Append(stk, <<"g", 1>>), FALSE)
-            [] OTHER -> FALSE
-WellFormedEvent(s) == s # <<>> /\ WF(s, 1, <<>>, FALSE)
+                          ELSE push(<<(IF stk # <<>> /\ LastC(stk)[1] = "g" THEN "mg" ELSE "m"), 2 * n>>)
+            [] k = "A*" -> push(<<"a*", 0>>)
+            [] k = "M*" -> push(<<"m*", 0>>)
+            [] k = "T*" -> push(<<"t*", 0>>)
+            [] k = "B*" -> push(<<"b*", 0>>)
+            [] k = "G" -> push(<<"g", 1>>)
+            [] OTHER -> bad
+WellFormedEvent(s) == s # <<>> /\ LET r == FoldLeft(StepWF, [stk |-> <<>>, top |-> FALSE, ok |-> TRUE], s) IN r.ok /\ r.top /\ r.stk = <<>>
 =============================================================================
